@@ -31,6 +31,9 @@ type c07Case struct {
 	BBox  int    `json:"bbox,omitempty"`  // 0 none, 1 XY, 2 XYZ
 	Props int    `json:"props,omitempty"` // 0 nil, 1 {}, 2 nested
 	NFeat int    `json:"n_features,omitempty"`
+	// fc: Mix > 0 gives every feature its own id / bounding box or none: bit 2i = feature i has the
+	// id "f<i>", bit 2i+1 = it has a bounding box; otherwise every feature has ID and BBox
+	Mix int `json:"mix,omitempty"`
 	// doc
 	Doc  string `json:"doc,omitempty"`
 	Kind string `json:"decode_as,omitempty"` // geometry | feature | fc
@@ -64,7 +67,7 @@ func (cs *c07Case) UnmarshalJSON(b []byte) error {
 func init() {
 	engine.Register(&engine.Check{
 		ID: "C07", Level: "exploration",
-		Rule:        "round trip: universe U in XY, XYZ, XYM, XYZM, Layout(5), Layout(7) + collections (mixed layouts, empty members, nesting <=3) + a float lattice in points: Marshal output read by an independent RFC 7946 reader (same type, nesting, numbers) and by Unmarshal / Encode+Decode (equal to the model with the format carve-outs COMPUTED from the model: layout from the first position, empty => XY, arity mismatch => error); Features: id {absent,'a','0','1e3'} (plus ~300 string ids: every ASCII character alone and embedded, 15 characters beyond ASCII up to U+10FFFF, JSON look-alikes) x bbox {absent, XY, XYZ, antimeridian-crossing XY (west > east), XYZ with a reversed third axis, degenerate} x properties {nil,{},nested} x geometry {nil, each kind}; FeatureCollections of 0..2 features x bbox. Totality: grammar-directed enumeration of documents (type x coordinates menu x geometries menu; Feature id x bbox x geometry x properties menus; FeatureCollection menus) plus every prefix, every single-byte deletion and every single-byte substitution (12-byte structural menu) of valid documents, and every JSON value of nesting depth <=3 (+1 wrapping level) over arrays of 0..2 elements with leaves {1,null,\"a\"} (thorough: also 2.5 and {}) as the coordinates of every geometry type, decoded as geometry, Feature and FeatureCollection: no panic; error or well-formed result. distinct_nontrivial = distinct documents / geometries with at least one position or one member Also: a lattice of ~1100 numeric Feature ids (+-2^k and neighbours to 2^70, powers of ten to 1e22, integral values between 2^63 and 1e19) and two-step histories in which the document returned by Feature.MarshalJSON is kept while a shorter, an equally long and a longer document are marshalled. Round 7: every geometry round trip again with the encoder's bounding-box option, CRS option and both. Round 8: all round trips again with geojson.DefaultLayout set to XYZ, XYM and XYZM. Round 9: property maps whose keys are spelled like members of the Feature object (id, type, bbox, geometry, properties); decoding into a used Feature. Round 10: one FeatureCollection variable decoded into twice - features kept from the first decode keep their values. Round 12: every geometry of the round-trip corpus as the geometry of a Feature and of a two-feature FeatureCollection.",
+		Rule:        "round trip: universe U in XY, XYZ, XYM, XYZM, Layout(5), Layout(7) + collections (mixed layouts, empty members, nesting <=3) + a float lattice in points: Marshal output read by an independent RFC 7946 reader (same type, nesting, numbers) and by Unmarshal / Encode+Decode (equal to the model with the format carve-outs COMPUTED from the model: layout from the first position, empty => XY, arity mismatch => error); Features: id {absent,'a','0','1e3'} (plus ~300 string ids: every ASCII character alone and embedded, 15 characters beyond ASCII up to U+10FFFF, JSON look-alikes) x bbox {absent, XY, XYZ, antimeridian-crossing XY (west > east), XYZ with a reversed third axis, degenerate} x properties {nil,{},nested} x geometry {nil, each kind}; FeatureCollections of 0..2 features x bbox. Totality: grammar-directed enumeration of documents (type x coordinates menu x geometries menu; Feature id x bbox x geometry x properties menus; FeatureCollection menus) plus every prefix, every single-byte deletion and every single-byte substitution (12-byte structural menu) of valid documents, and every JSON value of nesting depth <=3 (+1 wrapping level) over arrays of 0..2 elements with leaves {1,null,\"a\"} (thorough: also 2.5 and {}) as the coordinates of every geometry type, decoded as geometry, Feature and FeatureCollection: no panic; error or well-formed result. distinct_nontrivial = distinct documents / geometries with at least one position or one member Also: a lattice of ~1100 numeric Feature ids (+-2^k and neighbours to 2^70, powers of ten to 1e22, integral values between 2^63 and 1e19) and two-step histories in which the document returned by Feature.MarshalJSON is kept while a shorter, an equally long and a longer document are marshalled. Round 7: every geometry round trip again with the encoder's bounding-box option, CRS option and both. Round 8: all round trips again with geojson.DefaultLayout set to XYZ, XYM and XYZM. Round 9: property maps whose keys are spelled like members of the Feature object (id, type, bbox, geometry, properties); decoding into a used Feature. Round 10: one FeatureCollection variable decoded into twice - features kept from the first decode keep their values. Round 12: every geometry of the round-trip corpus as the geometry of a Feature and of a two-feature FeatureCollection. Round 13: FeatureCollections of 2 and 3 features with every assignment of own id / no id and own bbox / no bbox.",
 		Run:         c07Run,
 		Replay:      func(c *engine.Ctx, kind string, raw json.RawMessage) { c07Exec(c, decodeCase[c07Case](raw)) },
 		Assumptions: []string{"finite ordinates; geojson.DefaultLayout at its default XY; encoding/json and ref.ParseGeoJSON trusted"},
@@ -439,8 +442,26 @@ func c07Exec(c *engine.Ctx, cs c07Case) {
 			}
 		} else {
 			fc := &geojson.FeatureCollection{BBox: c07BBox(cs.BBox)}
+			csAt := func(i int) c07Case {
+				if cs.Mix == 0 {
+					return cs
+				}
+				ci := cs
+				ci.ID, ci.BBox = "", 0
+				if cs.Mix>>(2*i)&1 != 0 {
+					ci.ID = fmt.Sprintf("f%d", i)
+				}
+				if cs.Mix>>(2*i+1)&1 != 0 {
+					ci.BBox = 1 + i%2
+				}
+				return ci
+			}
 			for i := 0; i < cs.NFeat; i++ {
-				fc.Features = append(fc.Features, mk())
+				f := mk()
+				if cs.Mix != 0 {
+					f.ID, f.BBox = csAt(i).ID, c07BBox(csAt(i).BBox)
+				}
+				fc.Features = append(fc.Features, f)
 			}
 			var back geojson.FeatureCollection
 			if p, stack := engine.Guard(func() {
@@ -461,10 +482,13 @@ func c07Exec(c *engine.Ctx, cs c07Case) {
 				return
 			}
 			for i, f := range back.Features {
-				if d := c07CheckFeature(f, cs, i); d != "" {
+				if d := c07CheckFeature(f, csAt(i), i); d != "" {
 					fail("feature-unequal", fmt.Sprintf("%s: feature %d: %s", data, i, d))
 					return
 				}
+			}
+			if cs.Mix != 0 {
+				break // (the histories below are run on the uniform collections)
 			}
 			// one FeatureCollection variable decoded into twice (a loop over documents): the features
 			// the caller took from the FIRST decode are the caller's - they keep the first document's
@@ -693,6 +717,17 @@ func c07Run(c *engine.Ctx) {
 		c07Exec(c, c07Case{Mode: "feature", G: corpus[i], ID: "a", Props: 1})
 		c07Exec(c, c07Case{Mode: "fc", G: corpus[i], ID: "a", Props: 1, NFeat: 2})
 	})
+	// collections whose features differ: every assignment of {own id, no id} x {own bounding box,
+	// none} to the features of collections of 2 and 3 features (a member that one feature has and
+	// the next has not must not be carried over)
+	for n := 2; n <= 3; n++ {
+		for mix := 1; mix < 1<<(2*n); mix++ {
+			for _, g := range []*ref.G{nil, geoms[1], geoms[3]} {
+				c.Count("mixed_feature_collections", 1)
+				c07Exec(c, c07Case{Mode: "fc", G: g, Props: 1 + mix%2, NFeat: n, Mix: mix, BBox: mix % 3})
+			}
+		}
+	}
 	// string ids: every ASCII character (control characters, DEL, quote, backslash, the characters
 	// encoding/json escapes for HTML) alone and embedded, and characters beyond ASCII up to the
 	// last code point incl. unassigned and non-printable ones above U+FFFF: the document must be
